@@ -296,7 +296,29 @@ def sensorEnv (d : EkfDef) (p : Point) : Env Rat :=
 
 def stateVec (d : EkfDef) (p : Point) : Fin d.n → Rat := fun i => (p.state.lookup (d.Ls.getD i.val "")).getD 0
 
+/-- `jacobians` in binary64 (`arith = "float"`): the model's own symbolic derivative (`Expr.diff`, proven to be the analytic
+derivative in `Proofs/Diff.lean`) evaluated in Lean `Float`, un-flattened with the same `row * stride + column` arithmetic as
+`unflatten`; for definitions outside the rational fragment. Values travel as IEEE-754 bit patterns. -/
+def opJacobiansF (j : Json) : Except String Json := do
+  let d ← jEkfDef (← j.getObjVal? "ekf")
+  let p ← jPoint (← j.getObjVal? "point")
+  let fenv (e : Env Rat) : Env Float := e.map fun (n, v) => (n, ratToFloat v)
+  let unfl (rows cols stride : Nat) (flat : List Float) : Json :=
+    Json.arr ((List.range rows).map fun i => Json.arr ((List.range cols).map fun c => floatBits (flat.getD (i * stride + c) 0.0)).toArray).toArray
+  let penv := fenv (processEnv d p)
+  let spec ← opt "update does not cover state" d.model.spec
+  let G ← opt "undefined" ((jacobianFlat spec d.Ls).mapM fun e => e.eval floatSem penv)
+  let V ← opt "undefined" ((jacobianFlat spec d.Lc).mapM fun e => e.eval floatSem penv)
+  let mut hs : List (String × Json) := []
+  for s in d.sensors do
+    let sspec ← opt "sensor spec" s.spec
+    let wrt := d.Ls ++ d.Lk
+    let H ← opt "undefined" ((jacobianFlat sspec wrt).mapM fun e => e.eval floatSem (fenv (sensorEnv d p)))
+    hs := hs ++ [(s.key, unfl s.Lr.length d.n wrt.length H)]
+  return okJ (Json.mkObj [("G", unfl d.n d.n d.n G), ("V", unfl d.n d.c d.c V), ("H", Json.mkObj hs)])
+
 def opJacobians (j : Json) : Except String Json := do
+  if (j.getObjVal? "arith" >>= fun a => a.getStr?).toOption == some "float" then return ← opJacobiansF j
   let d ← jEkfDef (← j.getObjVal? "ekf")
   let p ← jPoint (← j.getObjVal? "point")
   let env := processEnv d p
